@@ -93,9 +93,17 @@ def ftr_bytes(n: int) -> bytes:
     return bytes(254 + i % 2 for i in range(n))
 
 
+def small_max_write(min_write, min_part, max_part):
+    """the writer's LARGEST part size: the code never reads it (parts have no upper bound, see META), so any value must
+    leave the behaviour unchanged - three quarters of the recording writers announce a small one (1..3 minimum parts)"""
+    sel = (min_write * 31 + min_part * 7 + max_part) % 4
+    return (1 << 40) if sel == 0 else max(1, min_write) * sel
+
+
 class RecWriter:
-    def __init__(self, min_write, min_part, max_part):
+    def __init__(self, min_write, min_part, max_part, max_write=None):
         self._mw, self._mp, self._xp = min_write, min_part, max_part
+        self._xw = small_max_write(min_write, min_part, max_part) if max_write is None else max_write
         self.calls = []
         self.final = None
         self._lock = threading.Lock()
@@ -110,7 +118,7 @@ class RecWriter:
         return "done"
 
     min_write_sz = property(lambda s: s._mw)
-    max_write_sz = property(lambda s: 1 << 40)
+    max_write_sz = property(lambda s: s._xw)
     min_part = property(lambda s: s._mp)
     max_part = property(lambda s: s._xp)
 
@@ -1010,6 +1018,11 @@ def real_dask(R: Run, case_cfg, partitions_per_sub, split_every, sched, use_mpu_
         if info.get("tree_lost"):
             info.pop("tree", None)
         tree = info.get("tree")
+        if tree is not None and tree_leaves(tree) != leaves_all:
+            # the graph did not merge every partition that was handed in: what the statement demands is defined by the
+            # INPUT, never by what the graph happened to look at
+            info["observed_tree_incomplete"] = True
+            tree = None
         if tree is None:
             # not observable: the tree the model derives for these bags (python twin of the Lean `mpuWriteTree`)
             tree = py_mpu_tree(partitions_per_sub, 4 if use_mpu_write else split_every)
@@ -1760,6 +1773,32 @@ def run(R: Run):
         dask_shape_corr(R, info, subs, 4, out, cfg, True, "substream-classes")
         oracle(R, case, out, info, f"dask:{sched}:substream-classes")
         R.count("dask-substream-classes")
+    # ---------------- mpu_write over MANY bags (5..10 sub-streams; the collate step is a plain left fold over all of them), every
+    #                  count on every run, sub-streams that spilled in their own fold and are spilled again at collate
+    mark("many-substreams")
+    for nsub in list(range(1, 11)) * R.pick(2, 8):
+        min_write = rng.choice([4, 10])
+        subs = []
+        for j in range(nsub):
+            kind = rng.choice(["tiny", "small", "spilling", "spilling"]) if j < nsub - 1 else rng.choice(["small", "spilling", "spilling"])
+            if kind == "tiny":
+                subs.append([[rng.randint(1, max(1, min_write - 1))]])
+            elif kind == "small":
+                subs.append([[rng.choice([1, 3, min_write])] for _ in range(rng.randint(1, 2))])
+            else:
+                subs.append([[rng.choice([2 * min_write, 3 * min_write + 1, 5 * min_write]) for _ in range(rng.choice([1, 2]))]
+                             for _ in range(rng.randint(1, 3))])
+        wpc = rng.choice([1, 2, 3])
+        mp = rng.choice([0, 1, 3])
+        total = sum(len(x) for x in subs)
+        cfg = (True, min_write, mp, mp + total * wpc + rng.choice([0, 0, 50]), rng.choice([1, min_write, 2 * min_write + 1]), wpc,
+               rng.choice([None, None, 0, 3, 16]), rng.choice([None, None, 5]))
+        sched = ["sync", "threads", "random"][nsub % 3]
+        case, out, info = real_dask(R, cfg, subs, 2, sched, True, tkind=rng.choice([0, 0, 1]))
+        R.corr(case.line(), lambda: out, sig=f"dask|{sched}|mpu_write|many-substreams|subs={nsub}")
+        dask_shape_corr(R, info, subs, 4, out, cfg, True, f"many-substreams|subs={nsub}")
+        oracle(R, case, out, info, f"dask:{sched}:many-substreams")
+        R.count("dask-many-substreams")
     mark("processes")
     # ---------------- the real graph under the process-based scheduler (everything pickled, writer state on disk)
     for i in range(R.pick(3, 10)):
